@@ -5,6 +5,23 @@ HERE = os.path.dirname(os.path.dirname(os.path.abspath(__file__)))
 ALL = ["C%02d" % i for i in range(1, 21)]
 
 CHECKS = {
+ "C11": dict(
+  category="model_checking",
+  text="Loops.tla transcribes the five index-walking while-loops of the docstring emitter and scanners with an explicit variant "
+       "each; TLC checks Progress (action property: every back-edge strictly decreases a bounded variant), Termination under "
+       "weak fairness without any state constraint, and Linear (iterations <= len+2) over every character sequence of <=4 "
+       "(quick) / <=6 (thorough) characters with every start index and over the expansion of every sequence of <=2 / <=3 "
+       "docstring tokens; the emitter loop as it stood at the pinned commit must be rejected by TLC on every run (non-vacuity). "
+       "Binding: every enumerated token sequence (x3 indent levels, plus seeded longer random texts) is concretised and run "
+       "through ~25 real entry points (parse, split, emit as doc / param doc / original_doc_str, emit+reparse of the parsed IR, "
+       "doctrans applied 3 times to a generated module) under a sys.monitoring loop monitor that counts every back-edge of "
+       "every package loop per activation and aborts the call above 2000+200*n iterations, plus a wall-clock watchdog; the "
+       "recorded observations are validated by TLC against TraceLoops.tla.",
+  design_ref="DESIGN.md section 4, C11",
+  note="Trusted: C-level loops (str methods, re, itertools) terminate; the bound constants A=2000, B=200 (measured worst case on "
+       "the unchanged tree is ~9 iterations per input character). Recursion depth is not judged.",
+  technique="TLA+ loop transcriptions with variants checked by TLC (Progress/Termination), enumerated inputs replayed into the "
+            "real code under a back-edge-counting loop monitor; observations trace-validated"),
  "C09": dict(
   category="model_checking",
   text="Cst.tla is a character-level transcription of cst_scanner/cst_scan/cst_parser (str.strip, balanced_parentheses, "
